@@ -1,7 +1,17 @@
 # -*- coding: utf-8 -*-
 
 import functools as ft
-from typing import Dict, List, Mapping, Optional, Type, TypeVar, Union, cast
+from typing import (
+    Dict,
+    List,
+    Mapping,
+    Optional,
+    Set,
+    Type,
+    TypeVar,
+    Union,
+    cast,
+)
 
 from .._utils import lazy
 from ..exc import ExtensionError, SDLError
@@ -67,6 +77,7 @@ class ASTTypeBuilder:
         "_cache",
         "_extended_cache",
         "_extensions",
+        "_in_progress",
     )
 
     def __init__(
@@ -83,6 +94,9 @@ class ASTTypeBuilder:
         self._extended_cache = {}  # type: Dict[str, GraphQLType]
         self._extensions = type_extensions
         self._cache.update(additional_types)
+        # Names of the types being built or extended, used to reject eager
+        # (non lazy) circular references such as ``union U = U``.
+        self._in_progress = set()  # type: Set[str]
 
     def _collect_extensions(
         self, target_name: str, ext_type: TTypeExtension
@@ -128,22 +142,33 @@ class ASTTypeBuilder:
                 else:
                     type_def = cast(_ast.TypeDefinition, type_node)
 
-                if isinstance(type_def, _ast.ObjectTypeDefinition):
-                    built = self._build_object_type(
-                        type_def
-                    )  # type: GraphQLType
-                elif isinstance(type_def, _ast.InterfaceTypeDefinition):
-                    built = self._build_interface_type(type_def)
-                elif isinstance(type_def, _ast.EnumTypeDefinition):
-                    built = self._build_enum_type(type_def)
-                elif isinstance(type_def, _ast.UnionTypeDefinition):
-                    built = self._build_union_type(type_def)
-                elif isinstance(type_def, _ast.ScalarTypeDefinition):
-                    built = self._build_scalar_type(type_def)
-                elif isinstance(type_def, _ast.InputObjectTypeDefinition):
-                    built = self._build_input_object_type(type_def)
-                else:
-                    raise TypeError(type(type_def))
+                key = "build:" + type_name
+                if key in self._in_progress:
+                    raise SDLError(
+                        "Invalid circular reference to type %s" % type_name,
+                        [type_node],
+                    )
+                self._in_progress.add(key)
+
+                try:
+                    if isinstance(type_def, _ast.ObjectTypeDefinition):
+                        built = self._build_object_type(
+                            type_def
+                        )  # type: GraphQLType
+                    elif isinstance(type_def, _ast.InterfaceTypeDefinition):
+                        built = self._build_interface_type(type_def)
+                    elif isinstance(type_def, _ast.EnumTypeDefinition):
+                        built = self._build_enum_type(type_def)
+                    elif isinstance(type_def, _ast.UnionTypeDefinition):
+                        built = self._build_union_type(type_def)
+                    elif isinstance(type_def, _ast.ScalarTypeDefinition):
+                        built = self._build_scalar_type(type_def)
+                    elif isinstance(type_def, _ast.InputObjectTypeDefinition):
+                        built = self._build_input_object_type(type_def)
+                    else:
+                        raise TypeError(type(type_def))
+                finally:
+                    self._in_progress.discard(key)
 
                 self._cache[type_name] = built
                 return built
@@ -178,20 +203,30 @@ class ASTTypeBuilder:
         try:
             return self._extended_cache[name]
         except KeyError:
-            if isinstance(type_, ObjectType):
-                extended = self._extend_object_type(type_)  # type: GraphQLType
-            elif isinstance(type_, InterfaceType):
-                extended = self._extend_interface_type(type_)
-            elif isinstance(type_, EnumType):
-                extended = self._extend_enum_type(type_)
-            elif isinstance(type_, UnionType):
-                extended = self._extend_union_type(type_)
-            elif isinstance(type_, InputObjectType):
-                extended = self._extend_input_object_type(type_)
-            elif isinstance(type_, ScalarType):
-                extended = self._extend_scalar_type(type_)
-            else:
-                raise TypeError(type(type_))
+            key = "extend:" + name
+            if key in self._in_progress:
+                raise SDLError("Invalid circular reference to type %s" % name)
+            self._in_progress.add(key)
+
+            try:
+                if isinstance(type_, ObjectType):
+                    extended = self._extend_object_type(
+                        type_
+                    )  # type: GraphQLType
+                elif isinstance(type_, InterfaceType):
+                    extended = self._extend_interface_type(type_)
+                elif isinstance(type_, EnumType):
+                    extended = self._extend_enum_type(type_)
+                elif isinstance(type_, UnionType):
+                    extended = self._extend_union_type(type_)
+                elif isinstance(type_, InputObjectType):
+                    extended = self._extend_input_object_type(type_)
+                elif isinstance(type_, ScalarType):
+                    extended = self._extend_scalar_type(type_)
+                else:
+                    raise TypeError(type(type_))
+            finally:
+                self._in_progress.discard(key)
 
             self._extended_cache[name] = extended
             return extended
